@@ -979,6 +979,14 @@ func (vc *VC) evalCall(e *Expr, env *SpecEnv) SV {
 			return mathInt("0")
 		}
 		return SV{t: vc.unbox(x.t, t), typ: t}
+	case "box":
+		// box(x): the interface value a conversion of x to an interface type yields in the calling code
+		x := ev(0)
+		if x.typ == nil {
+			vc.errorf("spec: box(x) needs a typed Go value")
+			return SV{t: x.t, srt: "Iface"}
+		}
+		return SV{t: vc.makeIface(x), srt: "Iface"}
 	case "strof":
 		// strof(b): string(b) for a heap-mode byte slice - a function of the bytes in the slice's window
 		x := ev(0)
